@@ -38,12 +38,20 @@ fn generate_fvar(static_metadata: &StaticMetadata) -> Option<Fvar> {
     // Reuse an existing name record if possible (and allowed by the spec)
     let reverse_names = static_metadata.reverse_names();
     let min_font_specific_name_id = NameId::new(256);
-    let reusable_name_id = |name: &str, allow_reserved: bool| {
+    // The only spec-reserved IDs an instance may reuse are the subfamily names (2 or 17),
+    // and only at the default instance; every other reserved ID (e.g. the family name)
+    // is off limits even when it holds the same string.
+    let reusable_name_id = |name: &str, allow_subfamily: bool| {
         reverse_names
             .get(name)
             .unwrap()
             .iter()
-            .find(|&&name_id| allow_reserved || name_id >= min_font_specific_name_id)
+            .find(|&&name_id| {
+                name_id >= min_font_specific_name_id
+                    || (allow_subfamily
+                        && (name_id == NameId::SUBFAMILY_NAME
+                            || name_id == NameId::TYPOGRAPHIC_SUBFAMILY_NAME))
+            })
             .cloned()
             .unwrap()
     };
@@ -206,5 +214,43 @@ mod tests {
                 ))
                 .collect::<Vec<_>>()
         );
+    }
+
+    #[test]
+    fn default_instance_does_not_reuse_family_name_id() {
+        use fontdrasil::coords::{NormalizedCoord, UserCoord};
+        use fontir::ir::{NameKey, NamedInstance};
+        use std::collections::{HashMap, HashSet};
+        use write_fonts::types::{NameId, Tag};
+
+        let wght = Tag::new(b"wght");
+        let static_metadata = StaticMetadata::new(
+            1000,
+            HashMap::from([
+                (
+                    NameKey::new_bmp_only(NameId::FAMILY_NAME),
+                    "Fam".to_string(),
+                ),
+                (
+                    NameKey::new_bmp_only(NameId::SUBFAMILY_NAME),
+                    "Regular".to_string(),
+                ),
+            ]),
+            vec![axis("wght", 400.0, 400.0, 700.0)],
+            vec![NamedInstance {
+                name: "Fam".to_string(),
+                postscript_name: None,
+                location: vec![(wght, UserCoord::new(400.0))].into(),
+            }],
+            HashSet::from([vec![(wght, NormalizedCoord::new(0.0))].into()]),
+            None,
+            0.0,
+            None,
+            false,
+        )
+        .unwrap();
+        let fvar = generate_fvar(&static_metadata).unwrap();
+        let instance = &fvar.axis_instance_arrays.instances[0];
+        assert!(instance.subfamily_name_id >= NameId::new(256));
     }
 }
